@@ -237,3 +237,145 @@ def replace_exprs(stmts, mapping: typing.Dict[str, str]):
   for st in stmts:
     out.append(ast.fix_missing_locations(R().visit(_clone(st))))
   return out
+
+
+class AtomError(Exception):
+  """Raised by an atom valuation to say that evaluating this atom under the current assignment would fail at run time."""
+
+
+def eval_bool(test, leaf, val):
+  """Evaluate a test built from and / or / not over recognised leaves with Python's short-circuit
+  order.  leaf(e) -> (atom, polarity) or None (unrecognised: ValueError).  val(atom) -> bool, or
+  raises AtomError when the atom must not be evaluated under the assignment being explored."""
+  if isinstance(test, ast.BoolOp):
+    if isinstance(test.op, ast.And):
+      for v in test.values:
+        if not eval_bool(v, leaf, val):
+          return False
+      return True
+    for v in test.values:
+      if eval_bool(v, leaf, val):
+        return True
+    return False
+  if isinstance(test, ast.UnaryOp) and isinstance(test.op, ast.Not):
+    return not eval_bool(test.operand, leaf, val)
+  r = leaf(test)
+  if r is None:
+    raise ValueError(unparse(test))
+  atom, pol = r
+  b = val(atom)
+  return b if pol else not b
+
+
+def nonempty_test(test, is_subject) -> typing.Optional[bool]:
+  """True when `test` holds exactly when the container is non-empty (`x`, `len(x) > 0`,
+  `len(x) != 0`, `len(x) >= 1`, `x is not None and len(x) > 0`), False when it holds exactly when
+  it is empty (`not x`, `len(x) == 0`, `len(x) < 1`), None otherwise."""
+  neg = False
+  while isinstance(test, ast.UnaryOp) and isinstance(test.op, ast.Not):
+    neg = not neg
+    test = test.operand
+  r = None
+  if is_subject(test):
+    r = True
+  elif isinstance(test, ast.BoolOp) and isinstance(test.op, ast.And) and len(test.values) == 2 and is_none_test(test.values[0], is_subject) is False:
+    r = nonempty_test(test.values[1], is_subject)
+  else:
+    def is_len(e):
+      return isinstance(e, ast.Call) and isinstance(e.func, ast.Name) and e.func.id == "len" and len(e.args) == 1 and is_subject(e.args[0])
+    for k, table in ((0, {">": True, "!=": True, "==": False, "<=": False}), (1, {">=": True, "<": False})):
+      rel = relation(test, is_len, lambda e, k=k: isinstance(e, ast.Constant) and e.value == k and not isinstance(e.value, bool))
+      if rel in table:
+        r = table[rel]
+  if r is None:
+    return None
+  return (not r) if neg else r
+
+
+def enclosing_conditions(node, fnode) -> typing.List[typing.Tuple[ast.AST, bool]]:
+  """(test, polarity) of every if / while / conditional expression between fnode and node, outermost first:
+  node is evaluated only when each test has the given truth value (early exits before it are not considered)."""
+  out = []
+  cur = node
+  p = getattr(cur, "_parent", None)
+  while p is not None and cur is not fnode:
+    if isinstance(p, (ast.If, ast.While)):
+      if any(x is cur for x in p.body):
+        out.append((p.test, True))
+      elif any(x is cur for x in p.orelse):
+        out.append((p.test, False))
+    elif isinstance(p, ast.IfExp):
+      if p.body is cur:
+        out.append((p.test, True))
+      elif p.orelse is cur:
+        out.append((p.test, False))
+    cur, p = p, getattr(p, "_parent", None)
+  return list(reversed(out))
+
+
+def local_value(stmts, name: str) -> typing.Optional[ast.AST]:
+  """The expression a local holds after the given statement list, where `if T: v = a  else: v = b`
+  (nested if / elif included) counts as `v = a if T else b`; None when some path leaves it unassigned
+  or assigns it in another way."""
+  val = None
+  for st in stmts:
+    if isinstance(st, ast.Assign) and len(st.targets) == 1 and isinstance(st.targets[0], ast.Name) and st.targets[0].id == name:
+      val = st.value
+    elif isinstance(st, ast.AnnAssign) and isinstance(st.target, ast.Name) and st.target.id == name and st.value is not None:
+      val = st.value
+    elif isinstance(st, ast.If) and any(isinstance(n, ast.Name) and n.id == name and isinstance(n.ctx, ast.Store) for n in ast.walk(st)):
+      a = local_value(st.body, name)
+      b = local_value(st.orelse, name) if st.orelse else val
+      if a is None or b is None:
+        return None
+      val = ast.fix_missing_locations(ast.copy_location(ast.IfExp(test=st.test, body=a, orelse=b), st))
+  return val
+
+
+def _blocks(fnode):
+  for n in own_nodes(fnode):
+    for fld in ("body", "orelse", "finalbody"):
+      b = getattr(n, fld, None)
+      if isinstance(b, list) and b and isinstance(b[0], ast.stmt):
+        yield b
+  yield fnode.body
+
+
+def inline_locals_deep(fnode, expr, depth=4, keep=()):
+  """expr (a node of fnode) with every local replaced by the value it holds where expr is evaluated:
+  the statements that precede expr in each enclosing statement list, innermost first, are read with
+  local_value (plain assignment or if / else assignment); repeated `depth` times."""
+  params = {a.arg for a in fnode.args.posonlyargs + fnode.args.args + fnode.args.kwonlyargs}
+  # enclosing statement lists with the index of the statement that leads to expr
+  chain = []
+  cur = expr
+  p = getattr(cur, "_parent", None)
+  while p is not None and cur is not fnode:
+    for fld in ("body", "orelse", "finalbody"):
+      b = getattr(p, fld, None)
+      if isinstance(b, list):
+        for i, st in enumerate(b):
+          if st is cur:
+            chain.append((b, i))
+    cur, p = p, getattr(p, "_parent", None)
+
+  def value_of(name):
+    for b, i in chain:
+      if any(isinstance(n, ast.Name) and n.id == name and isinstance(n.ctx, ast.Store) for st in b[:i] for n in ast.walk(st)):
+        return local_value(b[:i], name)
+    return None
+
+  class T(ast.NodeTransformer):
+    def visit_Name(self, n):
+      if isinstance(n.ctx, ast.Load) and n.id not in params and n.id not in keep:
+        v = value_of(n.id)
+        if v is not None and not any(isinstance(x, ast.Name) and x.id == n.id for x in ast.walk(v)):
+          return _clone(v)
+      return n
+  e = _clone(expr)
+  for _ in range(depth):
+    new = T().visit(_clone(e))
+    if unparse(new) == unparse(e):
+      break
+    e = new
+  return ast.fix_missing_locations(e)
